@@ -22,6 +22,10 @@ func driveExplore(seed int64, tier, out, replay string) {
 			return
 		}
 		for i, op := range ops {
+			if o := selectedOp(r.Merged, op); o != nil {
+				pc, _, _ := planCanon(r, op, o)
+				fmt.Println("    plan:", pc)
+			}
 			what, resp := compareFed(r, op)
 			sub := subrequestProblems(r.Logs())
 			fmt.Printf("[%d] %s\n    verdict: %s\n    subreq: %s\n    resp: %s\n", i, op.Query, shortStr(what, 300), shortStr(sub, 200), shortStr(fmt.Sprint(resp), 200))
